@@ -103,6 +103,11 @@ def abiconc(cq, ct):
     return {"name": "S-abi:concurrent creation and use", Q: ["abiconc", "--cases", str(cq)], T: ["abiconc", "--cases", str(ct)], "seeds_t": 4}
 
 
+def extrasbulk(cq, ct):
+    return {"name": "S-extras:feature-gated library types (nalgebra, emath, ecolor) and derived structs around them: bulk containers vs item-wise encoding",
+            Q: ["extrasbulk", "--cases", str(cq)], T: ["extrasbulk", "--cases", str(ct)], "seeds_t": 3}
+
+
 def extras(cq, ct):
     return {"name": "S-extras:library types outside the model (BitVec, BitSet, PathBuf, Range): direct oracles", Q: ["extras", "--cases", str(cq)], T: ["extras", "--cases", str(ct)], "seeds_t": 2}
 
@@ -111,7 +116,7 @@ PROPS = {
     "C01": {
         "module": "Sfv.Props.C01",
         "tables": ["tables_prim_widths", "tables_option_result_tags", "tables_limits"],
-        "suites": [codec(8, 40), files(2, 8), extras(8, 40)],
+        "suites": [codec(8, 40), files(2, 8), extras(4, 20)],
         "oracle": ["C01"],
     },
     "C02": {
@@ -150,6 +155,7 @@ PROPS = {
         "tables": [],
         "suites": [smem(4, 20), schemas(3, 12), abiconn(1500, 6000), abicall(4, 20), plugin(2, 8)],
         "oracle": ["C11"],
+        "extra": ["rlplugins"],
     },
     "C10": {
         "module": "Sfv.Props.C10",
@@ -184,7 +190,7 @@ PROPS = {
     "C04": {
         "module": "Sfv.Props.C04",
         "tables": ["tables_prim_packed", "tables_prim_widths"],
-        "suites": [PACKED, bulk(4, 20), codec(6, 30)],
+        "suites": [PACKED, bulk(4, 20), codec(6, 30), extrasbulk(40, 400)],
         "oracle": ["C04"],
     },
     "C05": {
@@ -208,13 +214,13 @@ PROPS = {
     "C06": {
         "module": "Sfv.Props.C06",
         "tables": ["tables_limits", "tables_prim_packed"],
-        "suites": [malformed(6, 30), PACKED, schemas(2, 10), extras(4, 30)],
+        "suites": [malformed(6, 30), PACKED, schemas(2, 10), extras(3, 16)],
         "oracle": ["C06"],
     },
     "C07": {
         "module": "Sfv.Props.C07",
         "tables": ["tables_header"],
-        "suites": [cuts(1, 4), extras(4, 20)],
+        "suites": [cuts(1, 4), extras(2, 10)],
         "oracle": ["C07"],
     },
 }
